@@ -32,6 +32,7 @@ type coreCase struct {
 	OpName   *string                `json:"operationName,omitempty"`
 	Kind     string                 `json:"kind"`
 	Features []string               `json:"features,omitempty"`
+	Sibling  string                 `json:"sibling,omitempty"` // non-empty: the document also holds `query Sibling {…}` and OpName selects the main operation
 	// Fed, when present, replaces regeneration from FedSeed: failure records and corpus files
 	// carry the federation itself, so they stay valid when the generators change.
 	Fed *fedDump `json:"fed,omitempty"`
